@@ -364,9 +364,9 @@ Proof.
     match goal with P1 : plain_ss e = true, H1 : hse_ss e wl = false |- _ => sbind (IHe P1 wl H1 o3) end. sfinish.
   - (* SWhile *) intros; discriminate.
   - (* SWith *) intros; discriminate.
-  - (* SDef *) intros x decos evald cbody IHc P wl H o. cbn [plain_s hse_s exec] in *. split_hyps.
+  - (* SDef *) intros x decos evald bases cbody IHc P wl H o. cbn [plain_s hse_s exec] in *. split_hyps.
     repeat match goal with Hx : negb _ = false |- _ => apply negb_false_iff in Hx end.
-    destruct decos; [| discriminate].
+    destruct decos; [| discriminate]. subst bases.
     match goal with P1 : plain_l evald = true, H1 : hse_l evald wl = false |- _ =>
       destruct (ELS evald P1 wl H1) as [Tl _] end.
     cbn [eval_l]. bind (Tl o).
@@ -500,7 +500,8 @@ Definition hse_ss_mono := proj2 hse_s_mono_all.
 
 Lemma fdef_pure_mono : forall d a b, wl_incl a b -> fdef_pure d a = true -> fdef_pure d b = true.
 Proof.
-  intros d a b Hi H. unfold fdef_pure in *. apply andb_true_iff in H. destruct H as [H1 H2].
+  intros d a b Hi H. unfold fdef_pure in *. apply andb_true_iff in H. destruct H as [H0 H2].
+  apply andb_true_iff in H0. destruct H0 as [H0 H1]. rewrite H0.
   apply negb_true_iff in H1. apply negb_true_iff in H2.
   rewrite (hse_ss_mono _ a b Hi H1), (hse_l_mono _ a b Hi H2). reflexivity.
 Qed.
@@ -515,15 +516,16 @@ Lemma wl_incl_trans : forall a b c, wl_incl a b -> wl_incl b c -> wl_incl a c.
 Proof. intros a b c H1 H2 x H. exact (H2 x (H1 x H)). Qed.
 
 Section SafeNames.
-  Variable base shadowed : list name.
+  Variable base shadowed dups : list name.
   Variable defs0 : list fdef.
 
-  (* every safe name is a base name or the name of a (not shadowed) definition that is free of side
+  (* every safe name is a base name or the name of a (not shadowed, not shared) definition that is free of side
      effects relative to the safe names themselves *)
   Definition justified (safe : list name) : Prop :=
     forall x, mem x safe = true ->
       mem x base = true \/
-      exists d, In d defs0 /\ f_name d = x /\ mem x shadowed = false /\ fdef_pure d safe = true.
+      exists d, In d defs0 /\ f_name d = x /\ mem x shadowed = false /\ mem x dups = false /\
+                fdef_pure d safe = true.
 
   (* every safe node is the definition at that index, free of side effects *)
   Definition nodes_justified (safe : list name) (nodes : list nat) : Prop :=
@@ -531,16 +533,16 @@ Section SafeNames.
       exists d, In (i, d) (number_from 0 defs0) /\ mem (f_name d) shadowed = false /\ fdef_pure d safe = true.
 
   Lemma justified_grow : forall safe d,
-    justified safe -> In d defs0 -> mem (f_name d) shadowed = false -> fdef_pure d safe = true ->
-    justified (f_name d :: safe).
+    justified safe -> In d defs0 -> mem (f_name d) shadowed = false -> mem (f_name d) dups = false ->
+    fdef_pure d safe = true -> justified (f_name d :: safe).
   Proof.
-    intros safe d J Hin Hsh Hp x Hx. rewrite mem_cons in Hx. apply orb_true_iff in Hx.
+    intros safe d J Hin Hsh Hdu Hp x Hx. rewrite mem_cons in Hx. apply orb_true_iff in Hx.
     destruct Hx as [Hx | Hx].
     - apply String.eqb_eq in Hx. subst x. right. exists d. repeat split; try assumption.
       exact (fdef_pure_mono d safe _ (wl_incl_tl _ _) Hp).
-    - destruct (J x Hx) as [Hb | [d' [H1 [H2 [H3 H4]]]]]; [left; exact Hb |].
+    - destruct (J x Hx) as [Hb | [d' [H1 [H2 [H3 [H4 H5]]]]]]; [left; exact Hb |].
       right. exists d'. repeat split; try assumption.
-      exact (fdef_pure_mono d' safe _ (wl_incl_tl _ _) H4).
+      exact (fdef_pure_mono d' safe _ (wl_incl_tl _ _) H5).
   Qed.
 
   Lemma nodes_grow : forall safe safe' nodes,
@@ -559,7 +561,7 @@ Section SafeNames.
   Lemma safe_pass_inv : forall l safe nodes,
     (forall p, In p l -> In p (number_from 0 defs0)) ->
     justified safe -> nodes_justified safe nodes ->
-    let '(s', n', _) := safe_pass l shadowed safe nodes in
+    let '(s', n', _) := safe_pass l shadowed dups safe nodes in
     wl_incl safe s' /\ justified s' /\ nodes_justified s' n'.
   Proof.
     induction l as [| [i d] tl IH]; intros safe nodes Hl J K.
@@ -569,53 +571,57 @@ Section SafeNames.
       destruct (mem (f_name d) shadowed) eqn:Esh; [exact (IH safe nodes Htl J K) |].
       destruct (fdef_pure d safe) eqn:Ep; [| exact (IH safe nodes Htl J K)].
       assert (Hd : In (i, d) (number_from 0 defs0)) by (apply Hl; left; reflexivity).
-      assert (J' : justified (f_name d :: safe)).
-      { apply justified_grow; try assumption. exact (number_from_snd defs0 0 (i, d) Hd). }
-      assert (K' : nodes_justified (f_name d :: safe) (i :: nodes)).
+      set (safe' := if mem (f_name d) dups then safe else f_name d :: safe).
+      assert (Hi : wl_incl safe safe').
+      { unfold safe'. destruct (mem (f_name d) dups); [apply wl_incl_refl | apply wl_incl_tl]. }
+      assert (J' : justified safe').
+      { unfold safe'. destruct (mem (f_name d) dups) eqn:Edu; [exact J |].
+        apply justified_grow; try assumption. exact (number_from_snd defs0 0 (i, d) Hd). }
+      assert (K' : nodes_justified safe' (i :: nodes)).
       { intros j [Hj | Hj].
-        - subst j. exists d. repeat split; try assumption.
-          exact (fdef_pure_mono d safe _ (wl_incl_tl _ _) Ep).
-        - exact (nodes_grow safe _ nodes K (wl_incl_tl _ _) j Hj). }
-      pose proof (IH (f_name d :: safe) (i :: nodes) Htl J' K') as R.
-      destruct (safe_pass tl shadowed (f_name d :: safe) (i :: nodes)) as [[s' n'] c].
+        - subst j. exists d. repeat split; try assumption. exact (fdef_pure_mono d safe _ Hi Ep).
+        - exact (nodes_grow safe _ nodes K Hi j Hj). }
+      pose proof (IH safe' (i :: nodes) Htl J' K') as R.
+      destruct (safe_pass tl shadowed dups safe' (i :: nodes)) as [[s' n'] c].
       destruct R as [R1 [R2 R3]]. split; [| split; assumption].
-      exact (wl_incl_trans _ _ _ (wl_incl_tl _ _) R1).
+      exact (wl_incl_trans _ _ _ Hi R1).
   Qed.
 
   Lemma safe_loop_inv : forall fuel l safe nodes,
     (forall p, In p l -> In p (number_from 0 defs0)) ->
     justified safe -> nodes_justified safe nodes ->
-    let '(s', n') := safe_loop fuel l shadowed safe nodes in
+    let '(s', n') := safe_loop fuel l shadowed dups safe nodes in
     wl_incl safe s' /\ justified s' /\ nodes_justified s' n'.
   Proof.
     induction fuel as [| k IH]; intros l safe nodes Hl J K.
     - cbn [safe_loop]. split; [apply wl_incl_refl | split; assumption].
     - cbn [safe_loop]. pose proof (safe_pass_inv l safe nodes Hl J K) as R.
-      destruct (safe_pass l shadowed safe nodes) as [[s1 n1] c]. destruct R as [R1 [R2 R3]].
+      destruct (safe_pass l shadowed dups safe nodes) as [[s1 n1] c]. destruct R as [R1 [R2 R3]].
       destruct c; [| split; [exact R1 | split; assumption]].
-      assert (Hf : forall p, In p (filter (fun p => negb (mem (f_name (snd p)) s1)) l) -> In p (number_from 0 defs0)).
+      set (l' := filter (fun p => negb (existsb (Nat.eqb (fst p)) n1)) l).
+      assert (Hf : forall p, In p l' -> In p (number_from 0 defs0)).
       { intros p Hp. apply filter_In in Hp. apply Hl. exact (proj1 Hp). }
-      pose proof (IH _ s1 n1 Hf R2 R3) as R'.
-      destruct (safe_loop k (filter (fun p => negb (mem (f_name (snd p)) s1)) l) shadowed s1 n1) as [s2 n2].
+      pose proof (IH l' s1 n1 Hf R2 R3) as R'.
+      destruct (safe_loop k l' shadowed dups s1 n1) as [s2 n2].
       destruct R' as [Q1 [Q2 Q3]]. split; [exact (wl_incl_trans _ _ _ R1 Q1) | split; assumption].
   Qed.
 End SafeNames.
 
-Definition safe_functions (base shadowed : list name) (defs : list fdef) : list name * list nat :=
-  safe_loop (S (List.length defs)) (number_from 0 defs) shadowed base [].
+Definition safe_functions (base shadowed dups : list name) (defs : list fdef) : list name * list nat :=
+  safe_loop (S (List.length defs)) (number_from 0 defs) shadowed dups base [].
 
-(* T16.5: every function name declared safe is a base name or names a definition whose checked statements
-   and returned values are free of side effects relative to the final safe set *)
+(* T16.5: every function name declared safe is a base name or names a definition -- not shadowed, not shared --
+   whose checked statements and returned values are free of side effects relative to the final safe set *)
 Theorem safe_names_justified :
-  forall base shadowed defs x,
-    mem x (fst (safe_functions base shadowed defs)) = true ->
+  forall base shadowed dups defs x,
+    mem x (fst (safe_functions base shadowed dups defs)) = true ->
     mem x base = true \/
-    exists d, In d defs /\ f_name d = x /\ mem x shadowed = false /\
-              fdef_pure d (fst (safe_functions base shadowed defs)) = true.
+    exists d, In d defs /\ f_name d = x /\ mem x shadowed = false /\ mem x dups = false /\
+              fdef_pure d (fst (safe_functions base shadowed dups defs)) = true.
 Proof.
-  intros base shadowed defs x. unfold safe_functions.
-  pose proof (safe_loop_inv base shadowed defs (S (List.length defs)) (number_from 0 defs) base []) as R.
-  destruct (safe_loop (S (List.length defs)) (number_from 0 defs) shadowed base []) as [s n].
+  intros base shadowed dups defs x. unfold safe_functions.
+  pose proof (safe_loop_inv base shadowed dups defs (S (List.length defs)) (number_from 0 defs) base []) as R.
+  destruct (safe_loop (S (List.length defs)) (number_from 0 defs) shadowed dups base []) as [s n].
   cbn [fst]. destruct R as [_ [J _]].
   - intros p Hp. exact Hp.
   - intros y Hy. left. exact Hy.
@@ -633,17 +639,18 @@ Proof.
     replace (i - k) with (S (i - S k)) by lia. exact G2.
 Qed.
 
-(* a class is declared safe only if each of its constructors is such a definition *)
+(* a class is declared safe only if each of its constructors is such a definition (identified by its position,
+   not by its name) *)
 Theorem safe_class_justified :
-  forall base shadowed defs c,
-    class_safe (snd (safe_functions base shadowed defs)) c = true ->
+  forall base shadowed dups defs c,
+    class_safe (snd (safe_functions base shadowed dups defs)) c = true ->
     forall i, In i (snd c) ->
     exists d, nth_error defs i = Some d /\ mem (f_name d) shadowed = false /\
-              fdef_pure d (fst (safe_functions base shadowed defs)) = true.
+              fdef_pure d (fst (safe_functions base shadowed dups defs)) = true.
 Proof.
-  intros base shadowed defs c Hc i Hi. unfold safe_functions in *.
-  pose proof (safe_loop_inv base shadowed defs (S (List.length defs)) (number_from 0 defs) base []) as R.
-  destruct (safe_loop (S (List.length defs)) (number_from 0 defs) shadowed base []) as [s n].
+  intros base shadowed dups defs c Hc i Hi. unfold safe_functions in *.
+  pose proof (safe_loop_inv base shadowed dups defs (S (List.length defs)) (number_from 0 defs) base []) as R.
+  destruct (safe_loop (S (List.length defs)) (number_from 0 defs) shadowed dups base []) as [s n].
   cbn [fst snd] in *. destruct R as [_ [_ K]].
   - intros p Hp. exact Hp.
   - intros y Hy. left. exact Hy.
@@ -654,19 +661,19 @@ Proof.
     destruct (number_from_nth defs 0 i d H1) as [_ G]. rewrite PeanoNat.Nat.sub_0_r in G. exact G.
 Qed.
 
-(* R16.5: names, not definitions, are declared safe -- a second definition with the same name is taken
-   for the first one *)
+(* R16.5: when the caller does not tell which names are shared ([dups] = []), a second definition with the same
+   name is taken for the first one *)
 Local Open Scope string_scope.
 Theorem safe_names_refuted_duplicate :
   exists base shadowed defs d,
-    In d defs /\ mem (f_name d) (fst (safe_functions base shadowed defs)) = true /\
+    In d defs /\ mem (f_name d) (fst (safe_functions base shadowed [] defs)) = true /\
     mem (f_name d) base = false /\ mem (f_name d) shadowed = false /\
-    fdef_pure d (fst (safe_functions base shadowed defs)) = false.
+    fdef_pure d (fst (safe_functions base shadowed [] defs)) = false.
 Proof.
   exists [], [],
-    [mkF "f" SNil (ECons (EConst false) ENil);
-     mkF "f" (SCons (SExpr (ECall (EName "print") ENil ENil)) SNil) ENil],
-    (mkF "f" (SCons (SExpr (ECall (EName "print") ENil ENil)) SNil) ENil).
+    [mkF "f" false SNil (ECons (EConst false) ENil);
+     mkF "f" false (SCons (SExpr (ECall (EName "print") ENil ENil)) SNil) ENil],
+    (mkF "f" false (SCons (SExpr (ECall (EName "print") ENil ENil)) SNil) ENil).
   split; [right; left; reflexivity |]. vm_compute. repeat split.
 Qed.
 Local Close Scope string_scope.
@@ -697,30 +704,76 @@ Proof.
   - exact (IH a b Htl Ha Hb Hab).
 Qed.
 
-(* T16.5 (partial): when the definitions have distinct names that are not base names, EVERY definition
-   whose name is declared safe is free of side effects *)
+(* the definitions whose name is not declared shared *)
+Definition unshared (dups : list name) (defs : list fdef) : list fdef :=
+  filter (fun d => negb (mem (f_name d) dups)) defs.
+
+(* T16.5 (partial): when [dups] covers every name that several definitions share (boolean guard: the other names
+   are distinct), EVERY definition whose name is declared safe is free of side effects *)
 Theorem safe_names_partial_unique :
-  forall base shadowed defs d,
-    nodupb (map f_name defs) = true ->
+  forall base shadowed dups defs d,
+    nodupb (map f_name (unshared dups defs)) = true ->
     In d defs -> mem (f_name d) base = false ->
-    mem (f_name d) (fst (safe_functions base shadowed defs)) = true ->
-    fdef_pure d (fst (safe_functions base shadowed defs)) = true.
+    mem (f_name d) (fst (safe_functions base shadowed dups defs)) = true ->
+    fdef_pure d (fst (safe_functions base shadowed dups defs)) = true.
 Proof.
-  intros base shadowed defs d Hn Hd Hb Hs.
-  destruct (safe_names_justified base shadowed defs (f_name d) Hs) as [H | [d' [H1 [H2 [H3 H4]]]]].
+  intros base shadowed dups defs d Hn Hd Hb Hs.
+  destruct (safe_names_justified base shadowed dups defs (f_name d) Hs) as [H | [d' [H1 [H2 [H3 [H4 H5]]]]]].
   - rewrite H in Hb. discriminate.
-  - rewrite (nodupb_unique defs d d' Hn Hd H1 (eq_sym H2)). exact H4.
+  - assert (Ia : In d (unshared dups defs)).
+    { unfold unshared. apply filter_In. split; [exact Hd |]. rewrite H4. reflexivity. }
+    assert (Ib : In d' (unshared dups defs)).
+    { unfold unshared. apply filter_In. split; [exact H1 |]. rewrite H2, H4. reflexivity. }
+    rewrite (nodupb_unique (unshared dups defs) d d' Hn Ia Ib (eq_sym H2)). exact H5.
 Qed.
 
 Local Open Scope string_scope.
 Example safe_names_nonvacuous :
-  let defs := [mkF "f" SNil (ECons (ECall (EName "h") ENil ENil) ENil);
-               mkF "h" (SCons (SExpr (EName "x")) SNil) (ECons (EConst false) ENil);
-               mkF "k" (SCons (SExpr (ECall (EName "print") ENil ENil)) SNil) ENil] in
-  nodupb (map f_name defs) = true /\
-  fst (safe_functions ["len"] [] defs) = ["f"; "h"; "len"].
+  let defs := [mkF "f" false SNil (ECons (ECall (EName "h") ENil ENil) ENil);
+               mkF "h" false (SCons (SExpr (EName "x")) SNil) (ECons (EConst false) ENil);
+               mkF "k" false (SCons (SExpr (ECall (EName "print") ENil ENil)) SNil) ENil;
+               mkF "m" false SNil ENil; mkF "m" false (SCons (SExpr (ECall (EName "print") ENil ENil)) SNil) ENil] in
+  nodupb (map f_name (unshared ["m"] defs)) = true /\
+  fst (safe_functions ["len"] [] ["m"] defs) = ["f"; "h"; "len"].
 Proof. vm_compute. split; reflexivity. Qed.
 Local Close Scope string_scope.
+
+(* ---------------- the guards of delete_pointless_statements ---------------- *)
+Lemma pointless_ctx_from_spec : forall body in_try us_used wl i k s,
+  nth_error (stmts_list body) k = Some s ->
+  nth k (pointless_ctx_from in_try us_used i body wl) false = true ->
+  hse_s s wl = false /\ (in_try = true -> cannot_raise s = true) /\
+  (us_used = true -> mentions_us s = false) /\ iter_unk_s s = false.
+Proof.
+  induction body as [| s0 tl IH]; intros in_try us_used wl i k s Hn Hp.
+  - destruct k; discriminate.
+  - destruct k as [| k'].
+    + cbn in Hn. inversion Hn; subst. cbn [pointless_ctx_from nth] in Hp.
+      repeat (apply andb_true_iff in Hp; destruct Hp as [Hp ?]).
+      repeat match goal with Hx : negb _ = true |- _ => apply negb_true_iff in Hx end.
+      split; [assumption |]. split; [| split; [| assumption]].
+      * intro E. subst in_try. match goal with Hx : negb true || _ = true |- _ => exact Hx end.
+      * intro E. subst us_used. match goal with Hx : negb true || negb _ = true |- _ =>
+          cbn in Hx; apply negb_true_iff in Hx; exact Hx end.
+    + cbn [stmts_list nth_error] in Hn. cbn [pointless_ctx_from nth] in Hp. exact (IH _ _ wl (S i) k' s Hn Hp).
+Qed.
+
+(* T16.4f: what delete_pointless_statements deletes is free of side effects (so T16.4 applies), inside a try body
+   with handlers it cannot raise, when `_` is read somewhere it does not touch `_`, and it iterates over nothing
+   but objects built on the spot *)
+Theorem pointless_ctx_sound : forall body in_try us_used wl k s,
+  nth_error (stmts_list body) k = Some s ->
+  nth k (pointless_ctx in_try us_used body wl) false = true ->
+  hse_s s wl = false /\ (in_try = true -> cannot_raise s = true) /\
+  (us_used = true -> mentions_us s = false) /\ iter_unk_s s = false.
+Proof. intros. eapply pointless_ctx_from_spec; eassumption. Qed.
+
+(* a statement that cannot raise does nothing at all *)
+Theorem cannot_raise_inert : forall s o, cannot_raise s = true -> exec s o = ([], ONormal, o).
+Proof.
+  intros s o H. destruct s; try discriminate; [| reflexivity].
+  destruct e; try discriminate. reflexivity.
+Qed.
 
 (* ---------------- the regenerated table ---------------- *)
 (* T16.6 (generic part): a table that passes the boolean test lists no builtin known to have a side
